@@ -10,6 +10,11 @@ from excel2pycl.src.exceptions import E2PyclSafetyException, E2PyclParserExcepti
 from excel2pycl.src.handle_cell import handle_cell
 
 
+class TextCellValue(str):
+    """The text of a cell that is stored as a text although it starts with '=' (typed with a leading apostrophe): a constant,
+    never a formula."""
+
+
 class Excel:
     def __init__(self, worksheets):
         self._data = worksheets['data']
@@ -179,6 +184,9 @@ class Excel:
                     # обрабатываем ArrayFormula, считываем из него значение формулы
                     if isinstance(cell.value, ArrayFormula):
                         rows_data.append(cell.value.text.strip())
+                    elif cell.data_type == 's' and isinstance(cell.value, str) and cell.value.startswith('='):
+                        # a text cell, whatever its first character: the cell's type decides, not the look of its text
+                        rows_data.append(TextCellValue(cell.value))
                     else:
                         rows_data.append(cell.value)
                 worksheet_data.append(rows_data)
